@@ -1,7 +1,7 @@
 (** Declarative vocabulary of C03 / C05 / C06: what it means for a graph to be
     well formed, weakly connected from a top, and for two graphs to have the
     same content. *)
-From PM Require Export Impl.Model Impl.Graph.
+From PM Require Export Impl.Model Impl.Graph Impl.Format.
 From Coq Require Export Sorting.Permutation.
 
 (* ------------------------------------------------------------------ *)
@@ -19,7 +19,7 @@ Definition tkey (t : triple) : triple := (akey (tsrc t), trole t, akey (ttgt t))
 Definition is_instance (t : triple) : bool := str_eqb (trole t) INSTANCE.
 
 (* the branch that expresses a triple at the node of its source: the concept
-   branch is spelled "/" *)
+   branch is spelled [/] *)
 Definition edge_of (t : triple) : triple :=
   (akey (tsrc t), (if is_instance t then SLASHS else trole t), akey (ttgt t)).
 
@@ -55,28 +55,6 @@ Definition connectedb (g : graph) (top : atom) : bool :=
   forallb (fun v => mem atom_eqb v (saturate (length (variables g)) g [top])) (variables g).
 
 (* ------------------------------------------------------------------ *)
-(** * Well-formed graphs (the domain of C03) *)
-
-Definition wf_symbol_atom (a : atom) : Prop :=
-  exists s, a = AStr s /\ s <> [] .
-
-Definition instances_of (g : graph) (v : atom) : list triple :=
-  filter (fun t => is_instance t && atom_eqb (tsrc t) v) (triples g).
-
-Record wf_graph (g : graph) : Prop := {
-  (* sources (the variables) are non-empty symbols *)
-  wf_sources : forall t, In t (triples g) -> wf_symbol_atom (tsrc t);
-  (* each variable has exactly one instance triple *)
-  wf_one_instance : forall v, is_var g v = true -> length (instances_of g v) = 1;
-  (* triples are pairwise distinct (by written form) *)
-  wf_distinct : NoDup (map tkey (triples g));
-  (* roles carry their colon, as the Graph constructor guarantees *)
-  wf_roles : forall t, In t (triples g) -> startswith (trole t) [COLON] = true;
-  (* an explicit top, if any, is a variable: automatic from [variables] *)
-  wf_nonempty : triples g <> []
-}.
-
-(* ------------------------------------------------------------------ *)
 (** * Same content *)
 
 Definition retop (g : graph) (top : atom) : graph :=
@@ -92,3 +70,140 @@ Definition graph_eq (m : model) (g1 g2 : graph) : Prop :=
   same_atoms (variables g1) (variables g2) /\
   Permutation (map (fun t => tkey (deinvert m t)) (triples g1))
               (map (fun t => tkey (deinvert m t)) (triples g2)).
+
+(* ------------------------------------------------------------------ *)
+(** * Reading a tree: all its branches as triples, all its nodes *)
+
+Definition target_atom (t : target) : atom :=
+  match t with TAtom a => a | TNode n => node_var n end.
+
+(* every branch (role, target) of every node, as (variable, role, target) with
+   a nested node standing for its variable; the concept branch keeps role [/] *)
+Fixpoint node_branch_triples (n : node) : list triple :=
+  match n with
+  | Node v bs =>
+      flat_map (fun b : branch =>
+                  (akey v, fst b, akey (target_atom (snd b)))
+                  :: match snd b with TNode n' => node_branch_triples n' | TAtom _ => [] end) bs
+  end.
+Definition tree_triples (t : tree) : list triple := node_branch_triples (troot t).
+
+(* the variable of every node of the tree (unnamed nodes included) *)
+Fixpoint node_all_vars (n : node) : list atom :=
+  match n with
+  | Node v bs =>
+      v :: flat_map (fun b : branch =>
+                       match snd b with TNode n' => node_all_vars n' | TAtom _ => [] end) bs
+  end.
+Definition tree_node_vars (t : tree) : list atom := node_all_vars (troot t).
+
+(* ------------------------------------------------------------------ *)
+(** * Reading the branches back as graph triples *)
+
+(* the concept branch [/ c] of node v is the triple (v, :instance, c) *)
+Definition unslash (b : triple) : triple :=
+  if str_eqb (trole b) SLASHS then (tsrc b, INSTANCE, ttgt b) else b.
+
+(* an instance triple whose concept is None or '' is not written (the node is
+   printed as [(v)]); every other triple is *)
+Definition no_concept (a : atom) : bool :=
+  match a with ANone => true | AStr [] => true | _ => false end.
+Definition is_written (t : triple) : bool := negb (is_instance t && no_concept (ttgt t)).
+
+(* the roles of [g] invert and deinvert consistently under [m]: inverting
+   twice gives the role back, inversion flips inverted-ness, and no inversion
+   yields the instance role.  Follows from C13 ([of_free m] and canonical
+   roles other than :instance-of); see [canonical_roles_invertible]. *)
+Definition role_invertible (m : model) (r : str) : Prop :=
+  invert_role m (invert_role m r) = r /\
+  is_role_inverted m (invert_role m r) = negb (is_role_inverted m r) /\
+  str_eqb (invert_role m r) INSTANCE = false.
+Definition roles_invertible (m : model) (g : graph) : Prop :=
+  forall t, In t (triples g) -> is_instance t = false -> role_invertible m (trole t).
+
+(* the content of a graph / of a tree, up to the model's single deinversion *)
+Definition graph_content (m : model) (g : graph) : list triple :=
+  map (fun t => tkey (deinvert m t)) (filter is_written (triples g)).
+Definition tree_content (m : model) (bs : list triple) : list triple :=
+  map (fun b => tkey (deinvert m (unslash b))) bs.
+
+(* ------------------------------------------------------------------ *)
+(** * Vocabulary of the placement theorem (T2) *)
+
+(* the top [configure] is asked for: the argument, else the graph's own top *)
+Definition requested_top (g : graph) (top : option atom) : option atom :=
+  match top with Some t => Some t | None => graph_top g end.
+
+(* the epidata holds layout markers (Push / POP) only -- in any number, any
+   order, naming anything, attached to any triple *)
+Definition layout_only (g : graph) : Prop :=
+  forall t es, In (t, es) (epidata g) -> forallb is_layout es = true.
+
+(* roles carry their colon, as the Graph constructor guarantees ([mk_graph]) *)
+Definition roles_have_colon (g : graph) : Prop :=
+  Forall (fun t => startswith (trole t) [COLON] = true) (triples g).
+
+(* the branch list written for an oriented triple [o] at the node of its source *)
+Definition written_for (o : triple) : list triple :=
+  if is_instance o && no_concept (ttgt o) then [] else [edge_of o].
+
+(* how one triple [x] of the graph is expressed in the tree: oriented as
+   written, or inverted (by its Push marker and/or because only its target was
+   available as a node); instance triples are never inverted *)
+Definition expressed_as (m : model) (x : triple) (bs : list triple) : Prop :=
+  exists t' o,
+    (t' = x \/ (t' = invert m x /\ is_instance x = false)) /\
+    (o = t' \/ (o = invert m t' /\ is_instance t' = false)) /\
+    bs = written_for o.
+
+(* ------------------------------------------------------------------ *)
+(** * The text of a node in non-compact mode (what [encode] uses) *)
+
+(* an atomic target is written unless it is None or '' -- in particular the
+   numbers 0 and 0.0 are written *)
+Definition atom_text (a : atom) : str :=
+  match a with ANone => [] | AStr [] => [] | _ => SPACE ++ atom_str a end.
+
+Definition edge_text (indent : option Z) (column' : Z) (e : branch) : str :=
+  let role := role_text (fst e) in
+  let col_e := if is_adaptive indent then (column' + zlen role + 1)%Z else column' in
+  match snd e with
+  | TAtom a => role ++ atom_text a
+  | TNode n' => role ++ SPACE ++ format_node indent col_e [] n'
+  end.
+
+Definition node_column (indent : option Z) (column : Z) (var : atom) : Z :=
+  match indent with
+  | None => column
+  | Some z => if Z.eqb z (-1) then (column + zlen (atom_str var) + 2)%Z else (column + z)%Z
+  end.
+Definition node_joiner (indent : option Z) (column' : Z) : str :=
+  match indent with None => SPACE | Some _ => 10%N :: zspaces column' end.
+
+(* N3: every Push marker names a variable of the graph *)
+Definition pushes_name_variables (g : graph) : Prop :=
+  forall t es pv, In (t, es) (epidata g) -> In (Push pv) es -> is_var g pv = true.
+
+(* variables are named: None is not a variable *)
+Definition variables_named (g : graph) : Prop :=
+  forall v, is_var g v = true -> atom_eqb v ANone = false.
+
+(* ------------------------------------------------------------------ *)
+(** * Well-formed graphs (the domain of C03 / C06) *)
+
+Definition instances_of (g : graph) (v : atom) : list triple :=
+  filter (fun t => is_instance t && atom_eqb (tsrc t) v) (triples g).
+
+Record wf_graph (m : model) (g : graph) : Prop := {
+  wf_nonempty : triples g <> [];
+  (* None is not a variable *)
+  wf_named : variables_named g;
+  (* roles carry their colon, as the Graph constructor guarantees *)
+  wf_roles : roles_have_colon g;
+  (* roles invert consistently under the model (canonical roles: C13) *)
+  wf_invertible : roles_invertible m g;
+  (* each variable has exactly one instance triple *)
+  wf_one_instance : forall v, is_var g v = true -> length (instances_of g v) = 1;
+  (* triples are pairwise distinct (by written form) *)
+  wf_distinct : NoDup (map tkey (triples g))
+}.
